@@ -24,6 +24,20 @@ impl<'a> IrEmitter<'a> {
     /// - Negative index conversion (Python-style)
     /// - Clone insertion for non-Copy types
     /// - Type-aware bracket vs method access
+    /// `t[2]` / `t[-1]` with a literal index inside a tuple of `len` elements: the position it selects.
+    fn literal_tuple_index(index: &TypedExpr, len: usize) -> Option<usize> {
+        let value = match &index.kind {
+            IrExprKind::Int(n) => *n,
+            IrExprKind::UnaryOp { op: UnaryOp::Neg, operand } => match &operand.kind {
+                IrExprKind::Int(n) => -*n,
+                _ => return None,
+            },
+            _ => return None,
+        };
+        let position = if value < 0 { value + len as i64 } else { value };
+        (0..len as i64).contains(&position).then_some(position as usize)
+    }
+
     pub(in super::super) fn emit_index_expr(
         &self,
         object: &TypedExpr,
@@ -57,6 +71,17 @@ impl<'a> IrEmitter<'a> {
                     Ok(quote! { *incan_stdlib::collections::list_get(&#o, #idx_i64) })
                 } else {
                     Ok(quote! { incan_stdlib::collections::list_get(&#o, #idx_i64).clone() })
+                }
+            }
+            // Tuples have no runtime indexing in Rust: a literal index selects the field (`t[0]` -> `t.0`, `t[-1]` ->
+            // the last one). Any other index falls through to the generic path below.
+            IrType::Tuple(elems) if Self::literal_tuple_index(index, elems.len()).is_some() => {
+                let n = Self::literal_tuple_index(index, elems.len()).unwrap_or(0);
+                let field = proc_macro2::Literal::usize_unsuffixed(n);
+                if elems[n].is_copy() {
+                    Ok(quote! { #o.#field })
+                } else {
+                    Ok(quote! { #o.#field.clone() })
                 }
             }
             // Fallback for unknown/unsupported index targets.
